@@ -77,6 +77,9 @@ def anchored_line_coverage(pid, linecov, pure_dir):
     return out
 
 
+HARD_KILL = "exit-%d" % int(__import__("signal").SIGVTALRM)
+
+
 def run_worker(unit, scratch, timeout):
     uid = unit["uid"]
     up = os.path.join(scratch, "u%s.json" % uid)
@@ -212,12 +215,14 @@ def _main(args, pid, tier, seed, t0, mod, builds, scratch):
                 out.append(("skipped", cur, None))
                 continue
             status, res, prog, tail, wall = run_worker(cur, scratch, cur.get("timeout", unit_timeout))
-            if status in ("timeout", "exit17"):
+            if status in ("timeout", "exit17", HARD_KILL):
                 # hang policy: find the case, re-run it alone. Alone, only the worker's own no-progress watchdog
                 # (exit 17: not one bounded piece of work completed in case_timeout seconds) confirms a hang; the
                 # generous outer wall-clock limit firing while the case still makes progress is inconclusive.
                 if cur.get("alone"):
-                    if status == "exit17":
+                    if status in ("exit17", HARD_KILL):
+                        if status == HARD_KILL:
+                            tail = "(killed by its CPU-time watchdog: the interpreter never got to run the no-progress handler - a loop inside compiled code)\n" + tail
                         out.append(("hang", cur, tail))
                         hang_confirmed.append(cur["uid"])
                     else:
